@@ -282,10 +282,10 @@ Proof.
 Qed.
 
 Lemma split_uri_slashes t :
-  two_slashes t = true ->
+  two_slashes t = true -> existsb (fun x => 128 <=? x) t = false ->
   split_uri t = SOk [] [] (unquote_to_bytes (until path_end t)) (qpart t) (tail_of (from (N.eqb 35) t)).
 Proof.
-  intro T2. unfold split_uri. rewrite firstn2_two_slashes, T2.
+  intros T2 A. unfold split_uri. rewrite firstn2_two_slashes, T2, A.
   rewrite cut_match. rewrite cut_match.
   destruct (path_query_cut t) as [-> ->]. reflexivity.
 Qed.
@@ -300,7 +300,7 @@ Proof.
            | Some rest => if two_slashes rest then from auth_end (skipn 2 rest) else rest
            | None => t end)).
   destruct (two_slashes t) eqn:T2.
-  - rewrite split_uri_slashes by exact T2. intro H. injection H as _ _ <- <- _.
+  - rewrite split_uri_slashes by (auto using wf_no_high). intro H. injection H as _ _ <- <- _.
     rewrite unquote_pct. split; reflexivity.
   - unfold split_uri. rewrite firstn2_two_slashes, T2.
     rewrite urlsplit_stages. rewrite wf_no_high by exact W.
